@@ -37,6 +37,19 @@ func (checker *TimestampChecker) IsUpToDate(t *ast.Task) (bool, error) {
 		return false, nil
 	}
 
+	// Each 'generates' entry has to match at least one existing file
+	generatesExist := true
+	for _, g := range t.Generates {
+		if g.Negate {
+			continue
+		}
+		files, err := glob(t.Dir, g.Glob)
+		if err != nil || len(files) == 0 {
+			generatesExist = false
+			break
+		}
+	}
+
 	timestampFile := checker.timestampFilePath(t)
 
 	// If the file exists, add the file path to the generates.
@@ -81,7 +94,7 @@ func (checker *TimestampChecker) IsUpToDate(t *ast.Task) (bool, error) {
 		}
 	}
 
-	return !shouldUpdate, nil
+	return !shouldUpdate && generatesExist, nil
 }
 
 func (checker *TimestampChecker) Kind() string {
